@@ -287,6 +287,62 @@ func genC22(repo string, root *pkgInfo, out string) {
 			return false
 		})
 	}
+	// the staging buffer (w.xw) is emptied after EVERY operation, also when the destination write fails (no return between
+	// the dstW.Write and xw.Reset()), and again when the writer is re-targeted (Reset)
+	stagingAlways, resetClears := false, false
+	isXwReset := func(st ast.Stmt) bool {
+		es, ok := st.(*ast.ExprStmt)
+		if !ok {
+			return false
+		}
+		ce, ok := es.X.(*ast.CallExpr)
+		if !ok {
+			return false
+		}
+		se, ok := ce.Fun.(*ast.SelectorExpr)
+		if !ok || se.Sel.Name != "Reset" {
+			return false
+		}
+		inner, ok := se.X.(*ast.SelectorExpr)
+		return ok && inner.Sel.Name == "xw"
+	}
+	if doFd != nil && doFd.Body != nil {
+		for i, st := range doFd.Body.List {
+			is, ok := st.(*ast.IfStmt)
+			if !ok {
+				continue
+			}
+			writes, returns := false, false
+			ast.Inspect(is, func(n ast.Node) bool {
+				switch x := n.(type) {
+				case *ast.CallExpr:
+					if se, ok := x.Fun.(*ast.SelectorExpr); ok && se.Sel.Name == "Write" {
+						if in, ok := se.X.(*ast.SelectorExpr); ok && in.Sel.Name == "dstW" {
+							writes = true
+						}
+					}
+				case *ast.ReturnStmt:
+					returns = true
+				}
+				return true
+			})
+			if writes && !returns {
+				for _, later := range doFd.Body.List[i+1:] {
+					if isXwReset(later) {
+						stagingAlways = true
+					}
+				}
+			}
+		}
+	}
+	if rfd := sl.funcDecl("writer", "Reset"); rfd != nil && rfd.Body != nil {
+		for _, st := range rfd.Body.List {
+			if isXwReset(st) {
+				resetClears = true
+			}
+		}
+	}
+	fmt.Fprintf(&b, "/-- (*writer).do empties the staging buffer after the destination write whether or not that write failed; (*writer).Reset empties it too -/\ndef stacklessDoAlwaysClearsStaging : Bool := %v\ndef stacklessResetClearsStaging : Bool := %v\n\n", stagingAlways, resetClears)
 	fmt.Fprintf(&b, "/-- the queue-full branch of (*writer).do is exactly `writerFunc(w)`, whatever the operation -/\ndef stacklessWriterDoUniform : Bool := %v\n\n", uniform)
 	fmt.Fprintf(&b, "/-- every user of the stackless queue falls back to running the job inline when the queue is full -/\ndef stacklessInlineOnFull : Bool := %v\n\n", all && doInline)
 
